@@ -1,6 +1,6 @@
 (* C09 — exported theorems only: each is closed by [exact] and followed by Print Assumptions. *)
 From Coq Require Import List ZArith Bool Permutation.
-From Verif Require Import C09.Model C09.Spec C09.Proofs_Agg C09.Proofs_Float C09.Proofs_Mono C09.Proofs C09.Proofs_Mid C09.Proofs_FloatAcc C09.Proofs_FloatMono C09.Proofs_ZoneMono C09.Proofs_Perm.
+From Verif Require Import C09.Model C09.Spec C09.Proofs_Agg C09.Proofs_Float C09.Proofs_Mono C09.Proofs C09.Proofs_Mid C09.Proofs_FloatAcc C09.Proofs_FloatMono C09.Proofs_ZoneMono C09.Proofs_Perm C09.Cfg C09.CfgSpec C09.Proofs_Cfg.
 Import ListNotations.
 Open Scope Z_scope.
 
@@ -207,6 +207,65 @@ Theorem c09_resolve_bad_annotation_ignored : forall s c,
 Proof. exact resolve_bad_annotation_ignored. Qed.
 Print Assumptions c09_resolve_bad_annotation_ignored.
 
+(* --- the configuration path (stream "cfg"): ConfigMap events -> handler cache -> strategy of a node ---
+   for EVERY history of ConfigMap events (create / update with any content incl. unparsable and invalid,
+   foreign, delete) and reconciles of nodes with any labels, every reconcile's observable obeys C09
+   under the strategy CONFIGURED for that node: the last accepted ConfigMap, layered
+   default < cluster < first matching nodeConfigs entry (CfgSpec.configured), then the node's own
+   annotation / labels.  [cfg_code] is what bin/check evaluates on the implementation's observable. *)
+Theorem c09_cfg_holds : forall ops b nc,
+  input_wf b = true -> cfg_code ops b nc (run_cfg ops b nc) = 0.
+Proof. exact run_cfg_code. Qed.
+Print Assumptions c09_cfg_holds.
+
+Theorem c09_cfg_code_sound : forall ops b nc obs,
+  cfg_code ops b nc obs = 0 -> exists chunks, concat chunks = obs /\ C09_cfg_holds ops b nc chunks.
+Proof. exact cfg_code_sound. Qed.
+Print Assumptions c09_cfg_code_sound.
+
+(* the handler's cache after any history is the compiled form of the accepted content ... *)
+Theorem c09_cfg_cache_refines : forall b nc ops, inv (final_state b nc ops) (final_ref ops).
+Proof. exact cache_refines. Qed.
+Print Assumptions c09_cfg_cache_refines.
+
+(* ... and what GetNodeColocationStrategy then serves (two chained JSON overlays, one of them on the
+   already merged copy) is the declarative "first present wins" layering *)
+Theorem c09_cfg_lookup_layered : forall st c pool tier,
+  compiled st c -> lookup st pool tier = configured c pool tier.
+Proof. exact lookup_configured. Qed.
+Print Assumptions c09_cfg_lookup_layered.
+
+Theorem c09_cfg_layered_overlay : forall e c, layered [e; c] = merge (merge default_patch c) e.
+Proof. exact layered_two. Qed.
+Print Assumptions c09_cfg_layered_overlay.
+
+(* entries of other pools — before or after the first matching one — never influence a node *)
+Theorem c09_cfg_isolated : forall c pre e post pool tier,
+  (forall x, In x pre -> sel_matches (fst x) pool tier = false) ->
+  sel_matches (fst e) pool tier = true ->
+  configured (c, pre ++ e :: post) pool tier = configured (c, [e]) pool tier.
+Proof. exact configured_isolated. Qed.
+Print Assumptions c09_cfg_isolated.
+
+Theorem c09_cfg_nomatch : forall c ns pool tier,
+  (forall x, In x ns -> sel_matches (fst x) pool tier = false) ->
+  configured (c, ns) pool tier = layered [c].
+Proof. exact configured_nomatch. Qed.
+Print Assumptions c09_cfg_nomatch.
+
+(* an Update whose Data equals the old Data is dropped by the handler: harmless, re-syncing is a no-op *)
+Theorem c09_cfg_sync_idem : forall st d, sync_data (sync_data st d) d = sync_data st d.
+Proof. exact sync_idem. Qed.
+Print Assumptions c09_cfg_sync_idem.
+
+(* invariant over histories (was a generator assumption): the strategy a node is calculated with is
+   always one IsColocationStrategyValid accepts, with policies / reclaim thresholds / degrade time present *)
+Theorem c09_cfg_served_strategy_valid : forall b nc ops pool tier,
+  let s := to_strategy (lookup (final_state b nc ops) pool tier) in
+  strategy_valid s = true /\ s_cpu_policy s <> 0 /\ s_mem_policy s <> 0.
+Proof. exact served_strategy_valid. Qed.
+Print Assumptions c09_cfg_served_strategy_valid.
+
 (* --- non-vacuity --- *)
 Example c09_wf_inhabited : input_wf witness_request_sys = true.
 Proof. reflexivity. Qed.
@@ -214,3 +273,10 @@ Example c09_input_le_inhabited :
   input_leb witness_request_sys
     (mkB (mkStrategy 1 2 100 100 (-1) (-1) 15) 0 1000 100 1000 100 false 0 0 0 0 60 [] [] [] []) = true.
 Proof. reflexivity. Qed.
+(* two pools, the second entry only tunes the degrade time: its nodes keep the cluster's 60 % *)
+Example c09_cfg_two_pools :
+  acceptable witness_cm = Some (cm_cluster witness_cm, cm_nodes witness_cm) /\
+  configured (cm_cluster witness_cm, cm_nodes witness_cm) 1 0 = mkPatch 1 1 95 95 (-1) (-1) 15 300 /\
+  configured (cm_cluster witness_cm, cm_nodes witness_cm) 2 0 = mkPatch 1 1 60 60 (-1) (-1) 10 300 /\
+  configured (cm_cluster witness_cm, cm_nodes witness_cm) 3 0 = mkPatch 1 1 60 60 (-1) (-1) 15 300.
+Proof. exact witness_configured. Qed.
